@@ -94,7 +94,7 @@ def _cross_case(rows, rows2, be, stream, objs2=None):
 
 
 def _setattr_cases():
-    # delete-then-assign: its own stream (plain assignment is what the property names; see known finding D20)
+    # delete-then-assign: `del c.key` followed by `c.key = ...` must not re-assign a defining field (D20, fixed f9d3226)
     for key in FORMAL_KEYS:
         yield dict(kind='setattr', stream='delete-then-assign', ckind='formal', key=key, src='from_objects', mode='del-assign')
     for key in PATTERN_KEYS:
@@ -591,6 +591,9 @@ def judge(c, io, rep):
     r = rep[0]
     if kind == 'setattr' and c.get('mode') == 'del-assign':
         frozen = c['key'] in FROZEN[c['ckind']]
+        if frozen and ('err' not in io['del'] or 'err' not in io):
+            return _bad('property', 'field-deleted-or-reassigned',
+                        f'{c["ckind"]} concept: `del c.{c["key"]}` / `c.{c["key"]} = ...` on a defining field was accepted: {io}')
         if frozen and not io['unchanged']:
             return _bad('property', 'field-reassigned-after-del',
                         f'{c["ckind"]} concept: `del c.{c["key"]}` then `c.{c["key"]} = ...` re-assigned the defining field: {io}')
